@@ -52,9 +52,10 @@ class ScNonStatio(PDENonStatio, _Eq):
 
 
 class Scen:
-    def __init__(self, kind, B=2, k=1, tag="", hetero=None, a_shape=()):
+    def __init__(self, kind, B=2, k=1, tag="", hetero=None, a_shape=(), eq_order=("a", "b")):
         self.kind, self.B, self.k = kind, B, k
         self.a_shape = tuple(a_shape)
+        self.eq_order = tuple(eq_order)         # the order in which the caller wrote the eq_params dictionary
         self.d = 1
         self.dp = {"ODE": 1, "statio": 1, "nonstatio": 2}[kind]        # point dimension
         eqt = {"ODE": "ODE", "statio": "statio_PDE", "nonstatio": "nonstatio_PDE"}[kind]
@@ -93,7 +94,7 @@ class Scen:
         return cls(**kw)
 
     def params(self, a):
-        return self.net.params(a["th"], {"a": a["a"], "b": a["b"]})
+        return self.net.params(a["th"], {k: a[k] for k in self.eq_order})
 
     def loss_batch(self, a, derivative_keys=None, param_batch=None, obs_eq=None, on=None):
         kind = self.kind
